@@ -200,6 +200,20 @@ def check_c19(idx: Index, tier: str, res: Result) -> None:
     bare = [c for c in iter_calls(h.node) if call_name(c) == "run_step" and not c.args and not c.keywords]
     res.ob("NULL", "run-step without body reaches run_step() with settings=None (%d call sites)" % len(bare), True, nontrivial=False)
 
+    # the compression round trip builds one entry per scenario: no table of shared entries (fromkeys with a mutable value)
+    from ..util import fromkeys_sweep
+    fromkeys_sweep(idx, res, "SHAPE", ["BPTK_Py/util/statecompression.py", "BPTK_Py/externalstateadapter/", "BPTK_Py/server/"])
+    # the restore installs what was saved: bptk._set_state changes nothing but the lock default
+    sst = idx.func(BPTK, "bptk._set_state")
+    sp = params(sst.node)[1] if len(params(sst.node)) > 1 else "state"
+    edits = [n for n in walk_no_nested(sst.node) if isinstance(n, (ast.Assign, ast.AugAssign)) and any(
+        isinstance(t, ast.Subscript) and isinstance(t.value, ast.Name) and t.value.id == sp and const_str(t.slice) != "lock"
+        for t in (n.targets if isinstance(n, ast.Assign) else [n.target]))]
+    res.check("WHOLE", "_set_state installs the saved session state unchanged", not edits, sst.loc(edits[0]) if edits else sst.loc(), sst.qual,
+              norm_stmt(edits[0])[:100] if edits else "self.session_state = state",
+              "bptk._set_state rewrites %s of the state it restores: the restored session differs from the one that was saved (a clock moved to "
+              "another grid point, a changed setting)" % (src(edits[0].targets[0] if isinstance(edits[0], ast.Assign) else edits[0].target) if edits else ""),
+              key="WHOLE/bptk._set_state/edits-restored-state")
     # ---- (3) FileAdapter record ---------------------------------------------------------------------------------------
     sv = idx.func(ADAPTER, "FileAdapter._save_instance")
     ld = idx.func(ADAPTER, "FileAdapter._load_instance")
@@ -403,6 +417,21 @@ def check_c20(idx: Index, tier: str, res: Result) -> None:
                       "several logged steps) leaves the old tail behind it, the file fails to parse and the instance cannot be restored"
                       % "|".join(sorted(f for f in flags if f.startswith("O_"))), key="ATOMIC/FileAdapter._save_instance/not-truncated")
     res.floor("writers of the state file", nwr, 1)
+    # a save that returns normally has put the new state in place: every path to the normal exit passes the rename (a save that is
+    # skipped silently - "somebody else is saving", "file exists" - leaves the previous step on disk while the caller answers 200)
+    if repl:
+        from ..cfg import Flow, build_cfg
+        scfg = build_cfg(sv.node, sv.qual)
+
+        def tr_saved(node, fact, label):
+            if node.kind == "stmt" and label != "exc" and node.ast is not None and any(r is x for r in repl for x in ast.walk(node.ast)):
+                return [True]
+            return [fact]
+        sflow = Flow(scfg, [False], tr_saved)
+        unsaved = [f for f in sflow.at[scfg.exit] if not f]
+        res.check("ATOMIC", "a save that returns has replaced the state file", not unsaved, sv.loc(), sv.qual, "os.replace(...) on every path",
+                  "FileAdapter._save_instance can return without having put the new state in place; path: %s"
+                  % (" ".join(sflow.witness(scfg.exit, False, 14)) if unsaved else ""), key="ATOMIC/FileAdapter._save_instance/save-skipped")
 
     persist_after_step_rule(idx, res)
 
